@@ -4,6 +4,7 @@
 """
 
 from collections import OrderedDict
+from numbers import Integral
 from cnfgen.info import info
 
 from cnfgen.localtypes import non_negative_int
@@ -158,6 +159,11 @@ class BaseCNF:
         if len(data) == 0:
             return
         try:
+            for i, lit in enumerate(data):
+                if not isinstance(lit, Integral):
+                    raise TypeError("{} is not an integer".format(lit))
+                # plain integers (e.g. `True` is the literal 1)
+                data[i] = int(lit)
             if 0 in data:
                 raise ValueError("0 is not a valid literal")
             maxv = max(data)
